@@ -12,7 +12,7 @@ from ._pairs import table_state_keys, executed_rows, V
 
 PID = "C16"
 LEVEL = "model_checking"
-WITNESSES = ["completed_run", "documented_rejection", "thermal_crop_run", "layered_soil_run", "option_deviation_run", "window_deviation_run", "leap_day_window"]
+WITNESSES = ["completed_run", "documented_rejection", "thermal_crop_run", "layered_soil_run", "option_deviation_run", "window_deviation_run", "leap_day_window", "end_around_last_maturity"]
 NONTRIVIAL = ["documented_rejection", "thermal_crop_run", "layered_soil_run", "option_deviation_run", "window_deviation_run", "leap_day_window"]
 
 SOILS15 = ["Clay", "ClayLoam", "Default", "Loam", "LoamySand", "Sand", "SandyClay", "SandyClayLoam", "SandyLoam", "Silt", "SiltClayLoam", "SiltLoam", "SiltClay", "Paddy", "ac_TunisLocal"]
@@ -150,6 +150,11 @@ def scenarios(tier, seed=0):
     else:
         for c, so, st in itertools.product(names, SOILS15, STRATS):
             yield {"kind": "cat", "crop": c, "soil": so, "irr": st}
+    # the end date on every day around the calendar maturity of the last season (calendar crops, also converted to thermal time)
+    for name in (["Maize", "Wheat", "Tomato", "SugarCane"] if tier == "quick" else ["Maize", "Wheat", "Tomato", "SugarCane", "Potato", "Cotton", "Barley", "Soybean"]):
+        for sw in (0, 1):
+            for d in range(-3, 4):
+                yield {"kind": "endlat", "crop": name, "switch": sw, "d": d}
     devs = list(OPTION_DEVS) + list(WINDOW_DEVS)
     for bi, b in enumerate(BASES):
         for d in devs:
@@ -165,6 +170,14 @@ def scenarios(tier, seed=0):
 def build(scn):
     if scn["kind"] == "cat":
         return cat(scn["crop"], scn["soil"], scn["irr"])
+    if scn["kind"] == "endlat":
+        import datetime as dt
+        from aquacrop.entities.crops.crop_params import crop_params
+
+        mat = int(crop_params[scn["crop"]]["MaturityCD"])
+        end = A._d("2002/05/01") + dt.timedelta(days=mat - 1 + scn["d"])
+        s = cat(scn["crop"], "SandyLoam", "none", end=A._f(end))
+        return _crop(s, SwitchGDD=scn["switch"]) if scn["switch"] else s
     c, so, st = BASES[scn["base"]]
     s = cat(c, so, st)
     if sum(1 for d in scn["devs"] if d in WINDOW_DEVS) > 1:
@@ -191,6 +204,8 @@ def run(scn):
     t, a, m = run_plain(spec, timeout=150)
     res["evals"] = 1
     facts = {"crop": spec["crop"]["name"], "soil": spec["soil"]["type"], "irr_method": (spec.get("irr") or {}).get("method", 0), "devs": scn.get("devs", [])}
+    if scn["kind"] == "endlat":
+        wit["end_around_last_maturity"] = 1
     if scn["kind"] == "dev":
         wit["option_deviation_run" if any(d in OPTION_DEVS for d in scn["devs"]) else "window_deviation_run"] = 1
         if any("feb29" in d for d in scn["devs"]):
